@@ -265,10 +265,12 @@ def finish(prop, tier, seed, level, result, rule, distinct_keys, t0,
         'wall_s': round(time.monotonic() - t0, 2),
         'violations': len(new),
     }
-    os.makedirs(os.path.join(VERIF, 'evidence'), exist_ok=True)
-    with open(os.path.join(VERIF, 'evidence', prop + '.json'), 'w') as f:
-        json.dump(ev, f, indent=1, sort_keys=True, default=repr)
-        f.write('\n')
+    no_ev = bool(os.environ.get('VF_NO_EVIDENCE'))     # mutant self-test: leave evidence/replays alone
+    if not no_ev:
+        os.makedirs(os.path.join(VERIF, 'evidence'), exist_ok=True)
+        with open(os.path.join(VERIF, 'evidence', prop + '.json'), 'w') as f:
+            json.dump(ev, f, indent=1, sort_keys=True, default=repr)
+            f.write('\n')
 
     for sig, vs in absorbed.items():
         print('KNOWN-FINDING: property=%s %s [%d occurrence(s) this run; e.g. %s]' % (
@@ -278,13 +280,16 @@ def finish(prop, tier, seed, level, result, rule, distinct_keys, t0,
         with open(os.environ['VF_DUMP'], 'w') as f:
             json.dump(new, f, indent=1, default=repr)
     if new:
-        os.makedirs(os.path.join(VERIF, 'replays'), exist_ok=True)
+        rdir = os.path.join(VERIF, 'replays') if not no_ev else '/dev/null'
+        if not no_ev:
+            os.makedirs(rdir, exist_ok=True)
         for v in new[:10]:
             body = json.dumps({'property': prop, 'tier': tier, 'seed': seed, **v}, indent=1, default=repr)
             name = '%s-%s.json' % (prop, hashlib.sha1(body.encode()).hexdigest()[:10])
-            path = os.path.join(VERIF, 'replays', name)
-            with open(path, 'w') as f:
-                f.write(body + '\n')
+            path = os.path.join(rdir, name)
+            if not no_ev:
+                with open(path, 'w') as f:
+                    f.write(body + '\n')
             print('VIOLATION property=%s replay=%s' % (prop, path))
             print('  what: %s' % v['what'])
             print('  witness: %s' % json.dumps(v['witness'], default=repr)[:1500])
